@@ -30,6 +30,16 @@ CLAIMED = {
         technique="symbolic execution of the real Python source + z3 (rewriter, linear abstraction, NRA) per path; "
                   "concolic path selection; counterexamples replayed on the real pipeflow",
         design="4/C03"),
+    "C07": dict(
+        text="Bounded model checking / translation validation between twin implementations: every numba kernel is "
+             "executed symbolically from its own Python source (py_func) next to its numpy twin on symbolic arrays; for "
+             "every jointly feasible pair of paths each residual-type and reported output is proved equal for all values. "
+             "End to end, the real pipeflow is executed symbolically with use_numba False / True from the same arbitrary "
+             "state (assembled systems and all extracted results equal), and a two-call history with "
+             "only_update_hydraulic_matrix + reuse_internal_data and changed loads is proved equal to a plain call.",
+        technique="symbolic execution of both twins + z3 equivalence queries per path pair (rewriter / rational normal "
+                  "form / NRA); counterexamples replayed on the compiled kernels and on the real pipeflow",
+        design="4/C07"),
 }
 
 NOT_APPLICABLE = {
